@@ -36,7 +36,7 @@ RULE = ("Hypothesis-generated programs: 1–3 groups placed 40 m apart, each a c
         "or non-occluding wall, a target with `visible from`, `not visible from` or "
         "requireVisible); optional 3D or polygonal workspace; 0–3 hard/soft user predicates over "
         "positions, distances and params; 2D and 3D mode; each scenario sampled 3–25 times on the "
-        "same Scenario object (3–10 operations: generate / generateBatch / checker switches; maxIterations 60) with an injected "
+        "same Scenario object (3–10, sometimes 15–25 operations: generate / generateBatch / checker switches; maxIterations 60) with an injected "
         "perf_counter sequence.  Non-trivial = at least one returned scene needed >= 2 iterations "
         "and the checker's requirement order changed at least once; distinct = SHA-1 of the case.")
 ASSUMPTIONS = [
@@ -132,6 +132,8 @@ def cluster(draw, g, mode2D, names):
              "occluding": draw(st.integers(0, 3)) != 0}
         if draw(st.integers(0, 2)) == 0:
             o["container"] = draw(containers([hx, hy, cz], w, max(dims), mode2D))
+            # an object that may overlap others must still stay inside its container
+            o["allowCollisions"] = draw(st.integers(0, 2)) == 0
         objs.append(o)
     return {"kind": "cluster", "objs": objs, "centre": [cx, cy, cz], "step": step}
 
@@ -145,8 +147,8 @@ def containers(draw, home, width, osize, mode2D):
     c = [home[i] + draw(U(-0.3, 0.3)) * width for i in range(3)]
     if mode2D:
         c[2] = 0.0
-    f = {"box": 1.8, "sph": 2.6}.get(k, 2.2)
-    big = U(f * osize + 0.5 * width, f * osize + 1.6 * width)
+    f = {"box": 1.6, "sph": 2.4}.get(k, 2.0)
+    big = U(f * osize + 0.4 * width, f * osize + 1.5 * width)
     pose = draw(st.sampled_from([[0.0, 0.0, 0.0], [0.0, 0.0, 0.0], None]))
     if pose is None:
         pose = draw(c04.poses())
@@ -190,9 +192,10 @@ def theatre(draw, g, mode2D, names, have_ego):
         viewer["pitch"] = 0.0 if mode2D else round(
             draw(st.sampled_from([0.0, draw(U(-0.2, 0.2)), draw(U(-0.8, 0.8)) * min(hp, 1.0)])), 4)
     if vk == "ego":
-        vis = draw(st.sampled_from(["requireVisible", "visible", "visible", "not visible"]))
+        vis = draw(st.sampled_from(["requireVisible", "requireVisible", "visible", "visible", "visible",
+                                    "not visible"]))
     else:
-        vis = draw(st.sampled_from(["visible from", "visible from", "visible from", "not visible from"]))
+        vis = draw(st.sampled_from(["visible from"] * 5 + ["not visible from"]))
     hidden = vis.startswith("not")
     dw = draw(U(2.5, 6.0))
     # a wall that leaves a fair chance of both outcomes for the requested relation
@@ -287,9 +290,12 @@ def cases(draw):
     for gr in groups:
         if gr["kind"] != "cluster":
             continue
-        for _ in range(draw(st.integers(0, 2))):
+        for k in range(draw(st.integers(1, 2))):
             p = draw(predicates(gr["objs"], have_param))
             if p and len(reqs) < 3:
+                if k > 0 and p["prob"] is None:
+                    # a second hard predicate on the same cluster is often contradictory
+                    p["prob"] = draw(st.sampled_from([0.25, 0.5, 0.75]))
                 reqs.append(p)
     ws = None
     wk = draw(st.sampled_from(["none", "none", "box", "rect", "tight"]))
@@ -318,7 +324,9 @@ def cases(draw):
         else:
             ws = {"k": "box", "dims": [xs[1] - xs[0], 60.0, 40.0], "ypr": [0.0, 0.0, 0.0],
                   "pos": [(xs[0] + xs[1]) / 2, 5.0, 0.0]}
-    nops = draw(st.integers(3, 10))
+    # mostly short histories; one in five long enough for the checker's 10-sample window to
+    # fill up with acceptances before something is violated
+    nops = draw(st.sampled_from([draw(st.integers(3, 10))] * 4 + [draw(st.integers(15, 25))]))
     ops = []
     for _ in range(nops):
         ops.append(draw(st.sampled_from([["gen"], ["gen"], ["gen"], ["gen"], ["batch", 2], ["batch", 3],
@@ -447,7 +455,7 @@ def emit(case):
             cond = (f"{r['a']}.position.{r['axis']} {r['op']} {r['b']}.position.{r['axis']} + "
                     f"{r['off']!r} + (qv - 0.5) * {r['scale']!r}")
         reqlines[add(f"{head} {cond}")] = i
-    src = "\n".join(f"param {k} = None" for k in params) + "\n" + "\n".join(lines) + "\n"
+    src = "\n".join([f"param {k} = None" for k in params] + lines) + "\n"
     off = len(params)
     return src, params, {ln + off: i for ln, i in reqlines.items()}
 
@@ -914,5 +922,5 @@ def run_shard(shard, tier):
     col = core.Collector(PROP, shard["id"])
     core.hyp_search(cases(), judge, shard["n"], shard["seed"], col,
                     known_sigs=shard.get("known_sigs", ()), case_timeout=180,
-                    shrink_s=40 if tier == "quick" else 240)
+                    shrink_s=25 if tier == "quick" else 240)
     return col.result()
